@@ -52,9 +52,9 @@ fn generate(seed: u64, tier: Tier, em: &mut Emitter) {
         let mode = parts.map_or(Mode::Seq, Mode::Par);
         let nprog = sweep_programs(JoinKind::Inner, &[]).len();
         let combos = KINDS.len() * rs.len() * nprog;
-        let per_point = if tier == Tier::Quick { 3 } else { combos };
+        let per_point = if tier == Tier::Quick { 3 } else { 10 };
         for t in 0..per_point {
-            let c = if tier == Tier::Quick { (idx * 11 + t * 61) % combos } else { t };
+            let c = (idx * 11 + t * 61) % combos;
             let kind = KINDS[c % 4];
             let r = &rs[(c / 4) % rs.len()];
             let (shape, steps) = &sweep_programs(kind, r)[c / (4 * rs.len())];
@@ -75,7 +75,7 @@ fn generate(seed: u64, tier: Tier, em: &mut Emitter) {
         }
     }
     let mut rng = seed_mix(seed, 0xC07_0002);
-    let count = if tier == Tier::Quick { 1100 } else { 11000 };
+    let count = if tier == Tier::Quick { 1100 } else { 8000 };
     let mut made = 0;
     while made < count {
         let n = gen_len(&mut rng);
